@@ -54,6 +54,8 @@ var c10Tree = map[string]string{
 	"repo/.github/workflows/s7bad.yml":   "on: push\njobs:\n  a: [unclosed\n",
 	"repo/.github/workflows/s7empty.yml": "# nothing here\n",
 	"repo/.github/workflows/s7seq.yml":   "- on: push\n",
+	// a file of no repository in a directory ABOVE the repositories (listed before / after their files)
+	"top.yml": "on: push\njobs:\n  a:\n    runs-on: foo-runner\n    steps:\n      - run: echo ${{ vars.ZZZ_VAR }}\n",
 	// S8: files that belong to no repository (null caches): ill-formed local call, local action, plain
 	"loose/l1.yml": "on: push\njobs:\n  a:\n    uses: ./foo.yml@v1\n  b:\n" + c10Job + "      - uses: ./act\n      - run: echo ${{ vars.X }}\n",
 	"loose/l2.yml": "on: push\njobs:\n  a:\n    uses: ./.github/workflows/nothere.yml\n  b:\n    uses: ./foo.yml@v1\n",
@@ -87,6 +89,7 @@ var c10Scenarios = []c10Scenario{
 	{Name: "S7b-empty", Files: []string{"repo/.github/workflows/s7empty.yml", "repo/.github/workflows/s1b.yml"}, MinFiles: 2},
 	{Name: "S8-no-repository", Files: []string{"loose/l1.yml", "loose/l2.yml", "loose/l3.yml"}, MinFiles: 2},
 	{Name: "S8b-no-repository-and-repository", Files: []string{"loose/l1.yml", "repo/.github/workflows/s1b.yml"}, MinFiles: 2},
+	{Name: "S9-file-above-repositories", Files: []string{"top.yml", "repo/.github/workflows/s3a.yml", "repo2/.github/workflows/s3c.yml"}, MinFiles: 2},
 	{Name: "S6-format", Files: []string{"repo/.github/workflows/s4a.yml", "repo/.github/workflows/s1b.yml"}, MinFiles: 2, Format: "{{range $ := .}}{{$.Filepath}}:{{$.Line}}:{{$.Column}}:{{$.Kind}}\n{{end}}"},
 }
 
@@ -169,7 +172,7 @@ func TestVerifC10(t *testing.T) {
 	}
 	r.Bounds["preemptions"] = maxPreempt
 	r.Bounds["semaphore_sizes"] = []int{1, 2}
-	r.Extra["rule"] = "10 scenarios (shared local action, caller+callee, sibling/nested repositories, shared-slice messages, broken callees, files that stop early, files outside any repository, -format) x every subset and argument order of their files x semaphore size {1,2} x all interleavings of the real LintFiles up to the preemption bound; oracle: per-file diagnostics = LintFile alone, once-per-run defects exactly once, fingerprints of shared tables and configs unchanged at every scheduling point; class = (scenario, file order, per-file diagnostic counts); non-trivial = more than one file with diagnostics"
+	r.Extra["rule"] = "11 scenarios (shared local action, caller+callee, sibling/nested repositories, shared-slice messages, broken callees, files that stop early, files outside any repository (also in a directory above the repositories), -format) x every subset and argument order of their files x semaphore size {1,2} x all interleavings of the real LintFiles up to the preemption bound; oracle: per-file diagnostics = LintFile alone, once-per-run defects exactly once, fingerprints of shared tables and configs unchanged at every scheduling point; class = (scenario, file order, per-file diagnostic counts); non-trivial = more than one file with diagnostics"
 	r.Extra["assumptions"] = []string{"data races are outside a cooperative scheduler's reach (supported by a separate free-running -race pass, not decided here)", "GOMAXPROCS is subsumed by interleavings under data-race freedom"}
 	root := vTempDir(t, "c10-")
 	vWriteFiles(t, root, c10Tree)
